@@ -598,12 +598,27 @@ func (tree *MutableTree) enableFastStorageAndCommitIfNotEnabled() (bool, error) 
 func (tree *MutableTree) enableFastStorageAndCommit() error {
 	var err error
 
-	itr := NewIterator(nil, nil, true, tree.ImmutableTree)
+	// The fast index always describes the latest version (it is labelled with it below), also when
+	// the working tree has been loaded at an older version.
+	source := tree.ImmutableTree
+	if tree.version != 0 {
+		_, latestVersion, err := tree.ndb.getLatestVersion()
+		if err != nil {
+			return err
+		}
+		if latestVersion != tree.version {
+			if source, err = tree.GetImmutable(latestVersion); err != nil {
+				return err
+			}
+		}
+	}
+
+	itr := NewIterator(nil, nil, true, source)
 	defer itr.Close()
 	var upgradedFastNodes uint64
 	for ; itr.Valid(); itr.Next() {
 		upgradedFastNodes++
-		if err = tree.ndb.SaveFastNodeNoCache(fastnode.NewNode(itr.Key(), itr.Value(), tree.version)); err != nil {
+		if err = tree.ndb.SaveFastNodeNoCache(fastnode.NewNode(itr.Key(), itr.Value(), source.version)); err != nil {
 			return err
 		}
 	}
